@@ -163,6 +163,16 @@ Definition insert_link (s : store) (msg mb uid : Z) (flags : list str) : option 
                      (glog s ++ log_for s mb uid (gser s))
                      (gused s) (gser s + 1)).
 
+(** db.IncrementUIDNextPerUser (raven: ONE statement, "UPDATE mailboxes SET
+    uid_next = uid_next + 1 WHERE id = ? RETURNING uid_next - 1"): the UID handed
+    out and the store with the counter advanced; [None] = no such row.
+    [add_message] below is [alloc_uid] followed by the INSERT. *)
+Definition alloc_uid (s : store) (mb : Z) : option (store * Z) :=
+  match find_id s mb with
+  | None => None
+  | Some m => Some (bump s mb, mb_next m)
+  end.
+
 (** db.IncrementUIDNextPerUser + INSERT = db.AddMessageToMailboxPerUser:
     two autocommit statements.  If the mailbox row does not exist the SELECT
     fails and nothing happens; if the INSERT hits UNIQUE the increment stays. *)
